@@ -19,7 +19,7 @@ for pid in sorted(by_id, key=lambda p: -len(by_id[p])):
 lock = threading.Lock()
 
 def run_lane(n):
-  wt = '/tmp/sweep/lane%d' % n
+  wt = '/tmp/sweep/%slane%d' % (os.environ.get('SWEEP_TAG', ''), n)
   while True:
     try:
       pid = q.get_nowait()
